@@ -609,6 +609,10 @@ LATE_FAMILY = [
     ('p', (V('X'),), ('and', ('call', 'q', V('X')), ('call', 'p', V('X')))),
     ('p', (V('X'),), ('or', ('call', 'p', ('f', 'f', V('X'))), ('ifthen', ('call', 'q', V('X')), ('call', 'r')))),
     ('q', (A('a'),), ('not', ('call', 'p', A('a')))),
+    # = goals on variables that are not mentioned before, inside alternatives and conditions
+    ('t', (V('R'),), ('and', ('or', ('and', ('call', '=', V('X'), A('a')), ('call', 'q', V('X'))), ('call', 'q', V('X'))), ('call', '=', V('R'), V('X')))),
+    ('u', (V('R'),), ('and', ('call', '=', V('T'), ('f', 'pair', V('A'), V('B'))), ('and', ('call', '=', V('A'), ('n', '1')),
+                                                                                      ('and', ('ifthen', ('call', '=', V('B'), ('n', '2')), ('true',)), ('call', '=', V('R'), V('T')))))),
 ]
 
 
@@ -633,12 +637,39 @@ def rule_calls_late_bound(cm, rep, rid):
                   'a function of the program being compiled')
     lab = ClauseLab(cm)
     f = cm.comp.methods['compile_program']
-    prog = [(('p', 1), [LATE_FAMILY[0], LATE_FAMILY[1]]), (('q', 1), [LATE_FAMILY[2]])]
+    prog = [(('p', 1), [LATE_FAMILY[0], LATE_FAMILY[1]]), (('q', 1), [LATE_FAMILY[2]]), (('t', 1), [LATE_FAMILY[3]]), (('u', 1), [LATE_FAMILY[4]])]
     funcs = lab.program(prog)
     if isinstance(funcs, str):
         rep.violation(rid, 'program:p/1 q/1', funcs, f.loc())
         return
     n = 0
+
+    def goals(b, acc):
+        if b[0] == 'call':
+            acc.append(b)
+        elif b[0] in ('and', 'or', 'ifthen', 'not'):
+            for y in b[1:]:
+                goals(y, acc)
+        return acc
+    for (k, cl), (fname, params, body) in zip(prog, funcs):
+        # every goal of the source is there as a loop over query(<its name>, [<its arguments>]): none is replaced by something
+        # that is not undone on backtracking (an assignment), none is dropped
+        have = set()
+        for call in _calls(lab, ListV(body), []):
+            a = lab.ctor_args(call) if lab.kind(call) == 'YPCodeCall' else None
+            args = a[1].items if a and isinstance(a[1], ListV) else []
+            if a and lab.text(a[0]) == 'query' and len(args) == 2 and lab.kind(args[0]) == 'YPCodeExpr' and lab.kind(args[1]) == 'YPCodeList':
+                have.add((lab.text(lab.ctor_args(args[0])[0]), repr(lab.canon(lab.ctor_args(args[1])[0], {}))))
+        for c in cl:
+            for g in goals(c[2], []):
+                try:
+                    want_args = ListV([lab.call('compile_expression', [lab.term(t)])[1] for t in g[2:]])
+                except AnalysisError:
+                    continue
+                if (g[1], repr(lab.canon(want_args, {}))) not in have:
+                    rep.violation(rid, '%s:goal %s' % (fname, show(('', (), g))[6:]), 'the clause %s contains this goal, but the code has no loop '
+                                  'over query(%r, [its arguments]): the goal is compiled to something else (an assignment is not undone '
+                                  'when the alternative it stands in fails) or left out' % (show(c), g[1]), f.loc())
     for fname, params, body in funcs:
         for call in _calls(lab, ListV(body), []):
             n += 1
